@@ -15,7 +15,11 @@ CONSTANT DumpCases
 
 Comps == {"doc", "lint", "pubvis", "unsafe", "generics", "supertrait", "where", "default-body", "assoc-type", "method-attr", "method-cfg", "async", "two-methods"}
 OptSets == {"none", "unimock", "mockall", "ref", "borrow", "static-di", "dyn-di", "async_trait"}
-Inputs == { i \in [comps : SUBSET Comps, opt : OptSets] :
+\* the shape of the generic parameter list (when there is one): one type parameter; a const parameter declared
+\* BEFORE the type parameter; a lifetime parameter; a defaulted type parameter; all of these at once
+GenericKinds == {"type", "const-first", "lifetime", "default", "mixed"}
+Inputs == { i \in [comps : SUBSET Comps, opt : OptSets, gk : GenericKinds \cup {"none"}] :
+            /\ (i.gk = "none" <=> "generics" \notin i.comps)
             /\ ("where" \in i.comps => "generics" \in i.comps)
             /\ (i.opt = "async_trait" => "async" \in i.comps)
             /\ (i.opt \in {"ref", "borrow", "dyn-di"} /\ "async" \in i.comps => FALSE)     \* dyn dispatch of async needs async_trait: its own option set
@@ -41,7 +45,7 @@ StepwiseIsEmitted == pc = "done" => held = Emitted(i)
 \* Level 1 at design level: nothing the user wrote is lost
 Refines == pc = "done" => (held = i.comps \/ Class(i) # "")
 
-ASSUME DumpCases => ndJsonSerialize(IOEnv.OUT, SetToSeq({ [comps |-> SetToSeq(x.comps), opt |-> x.opt, dropped |-> SetToSeq(Dropped(x)),
+ASSUME DumpCases => ndJsonSerialize(IOEnv.OUT, SetToSeq({ [comps |-> SetToSeq(x.comps), opt |-> x.opt, gk |-> x.gk, dropped |-> SetToSeq(Dropped(x)),
                                                           rewritten |-> Rewritten(x), cls |-> Class(x)] : x \in Inputs }))
 ASSUME PrintT(<<"INPUTS", Cardinality(Inputs)>>)
 =============================================================================
